@@ -104,7 +104,12 @@ def do_replay(path):
   payload = json.load(open(path))
   if payload.get('harness'):
     mod = importlib.import_module(payload['harness'])
-    res = mod.replay(payload['case'])
+    if payload['case'].get('crashed'):
+      from layerb import common as _common
+      pm = importlib.import_module('layerb.prop_' + payload['property'])
+      res = _common.replay_crashed(pm, payload['case'])
+    else:
+      res = mod.replay(payload['case'])
     what = res[0] if isinstance(res, tuple) else res
     if what:
       print(f"VIOLATION property={payload['property']} replay={path}")
